@@ -50,6 +50,11 @@ pub struct Prog {
     /// operator-set option (`--operators-version N` / set_disassembly_ver); None = default
     #[serde(default)]
     pub ops_version: Option<u8>,
+    /// Some(flags): compile through `compiler::compile_file` directly with caller-built
+    /// options (modern programs only): bit 0 optimize, bit 1 frontend_opt, bit 2
+    /// frontend_check_live off, bit 3 final classic optimizer pass
+    #[serde(default)]
+    pub direct: Option<u8>,
 }
 
 #[derive(Serialize, Deserialize, Clone, Debug, PartialEq)]
@@ -291,6 +296,68 @@ fn compile_text_v(
     }
 }
 
+/// `compile_file` called the way an embedding host would: dialect detected from the source,
+/// options built by the caller (optimisation switches varied), result converted like clvmc.
+fn compile_direct(
+    text: &str,
+    name: &str,
+    search: &[String],
+    flags: u8,
+    allocator: &mut Allocator,
+    syms: &mut HashMap<String, String>,
+) -> Compiled {
+    use chialisp::classic::clvm_tools::binutils::assemble_from_ir;
+    use chialisp::classic::clvm_tools::ir::reader::read_ir;
+    use chialisp::classic::clvm_tools::stages::stage_0::DefaultProgramRunner;
+    use chialisp::compiler::clvm::convert_to_clvm_rs;
+    use chialisp::compiler::compiler::compile_file;
+    use chialisp::compiler::dialect::detect_modern;
+    use chialisp::compiler::optimize::maybe_finalize_program_via_classic_optimizer;
+    let r = std::panic::catch_unwind(AssertUnwindSafe(|| {
+        let ir = read_ir(text).ok()?;
+        let assembled = assemble_from_ir(allocator, Rc::new(ir)).ok()?;
+        let dialect = detect_modern(allocator, assembled);
+        let stepping = dialect.stepping?;
+        let runner = Rc::new(DefaultProgramRunner::new());
+        let opts: Rc<dyn CompilerOpts> = Rc::new(DefaultCompilerOpts::new(name));
+        let opts = opts
+            .set_search_paths(search)
+            .set_dialect(dialect)
+            .set_optimize(flags & 1 != 0 || stepping > 22)
+            .set_frontend_opt(flags & 2 != 0 && stepping == 22)
+            .set_frontend_check_live(flags & 4 == 0);
+        let unopt = compile_file(allocator, runner.clone(), opts.clone(), text, syms).ok()?;
+        let _mode = NewStyleIntConversion::new(true);
+        let res = maybe_finalize_program_via_classic_optimizer(
+            allocator,
+            runner,
+            opts,
+            flags & 8 != 0,
+            &unopt,
+        )
+        .ok()?;
+        let node = convert_to_clvm_rs(allocator, res).ok()?;
+        node_to_bytes(allocator, node).ok()
+    }));
+    match r {
+        Ok(Some(b)) => Compiled {
+            class: "ok",
+            bytes: b,
+            syms: norm_syms(syms),
+        },
+        Ok(None) => Compiled {
+            class: "err",
+            bytes: vec![],
+            syms: String::new(),
+        },
+        Err(_) => Compiled {
+            class: "panic",
+            bytes: vec![],
+            syms: String::new(),
+        },
+    }
+}
+
 /// The `run` tool, as the command line runs it; the program text is read from `path`.
 fn compile_cli(path: &str, search: &[String], ops_version: Option<u8>) -> Compiled {
     use chialisp::classic::clvm::__type_compatibility__::Stream;
@@ -366,13 +433,13 @@ pub struct ResInfo {
     pub syms: String,
 }
 
-fn res_info(p: usize, c: &Compiled, dctr: u64, allocs: u64, nested: bool, with_syms: bool) -> String {
+fn res_info(p: usize, c: &Compiled, dctr: u64, allocs: u64, nested: bool, with_syms: bool, renames: bool) -> String {
     let syms_digest = if with_syms { digest(c.syms.as_bytes()) } else { "-".to_string() };
     format!(
         "p={};cls={};gs={};bytes={};len={};syms={};dctr={};allocs={};nested={};hex={};symtab={}",
         p,
         c.class,
-        (dctr > 0 || c.syms.contains("_$_")) as u8,
+        (dctr > 0 || c.syms.contains("_$_") || renames) as u8,
         digest(&c.bytes),
         c.bytes.len(),
         syms_digest,
@@ -478,6 +545,8 @@ fn run_compile_op(
             format!("r/src/{}/{}", p, prog.name)
         };
         compile_cli(&path, &search, prog.ops_version)
+    } else if let (Some(flags), true) = (prog.direct, prog.text.contains("(include *")) {
+        compile_direct(&prog.text, &prog.name, &search, flags, allocator, syms)
     } else {
         compile_text_v(
             &prog.text,
@@ -494,7 +563,15 @@ fn run_compile_op(
     let info = {
         let _g = seam::HarnessGuard::new();
         let dctr = ARGNAME_CTR.load(Ordering::SeqCst).wrapping_sub(ctr0) as u64;
-        res_info(p, &c, dctr, actor.alloc_count() - a0, nested, with_syms)
+        // the modern compiler renames every bound name (function arguments, let / assign
+        // bindings, lambda arguments) with a generated one
+        let renames = prog.text.contains("(include *standard-cl-")
+            || prog.text.contains("(include *strict-cl-");
+        let renames = renames
+            && ["(defun", "(let", "(assign", "(lambda", "(defmac"]
+                .iter()
+                .any(|k| prog.text.contains(k));
+        res_info(p, &c, dctr, actor.alloc_count() - a0, nested, with_syms, renames)
     };
     actor.boundary("res", &info);
 }
@@ -657,6 +734,7 @@ pub fn generate(rng: &mut Rng, thorough: bool) -> Workload {
                         1 => Some(1),
                         _ => None,
                     },
+                    direct: if rng.chance(1, 8) { Some(rng.below(16) as u8) } else { None },
                 });
                 continue;
             }
@@ -676,6 +754,7 @@ pub fn generate(rng: &mut Rng, thorough: bool) -> Workload {
                     1 => Some(1),
                     _ => None,
                 },
+                direct: if rng.chance(1, 8) { Some(rng.below(16) as u8) } else { None },
             });
             continue;
         }
@@ -747,6 +826,7 @@ pub fn generate(rng: &mut Rng, thorough: bool) -> Workload {
                 1 => Some(1),
                 _ => None,
             },
+            direct: if rng.chance(1, 8) { Some(rng.below(16) as u8) } else { None },
         });
     }
     // a near twin of one of the generated programs (same shape, one atom changed)
@@ -1529,7 +1609,7 @@ impl Prop for C05 {
         48
     }
     fn rule() -> &'static str {
-        "one evaluation = one simulated process history: 1..4 programs (seeded generator over all seven dialect settings, plus shipped sources under resources/tests) are compiled by a reference actor in canonical state, then by 1..8 perturbed actor threads whose operations (compile, failing compile at nine stages, name-counter jump, ambient integer-mode guard, re-entrant compile from read_new_file, reused allocator) are interleaved by the seeded scheduler at operation boundaries and at allocation-count preemption points, each thread with its own simulated hash entropy; every perturbed compile is compared with the reference (Ok/Err class, bytes, symbol entries with generated-name digits erased). Non-trivial run = at least one compared compile finished Ok for a program whose reference compile generated at least one fresh name (visible as a `_$_` entry in its symbol table, or as movement of the global name counter) (every perturbed compile differs from the reference at least in thread and hash entropy). Distinct = hash of (complete workload, event log) among non-trivial runs; coverage.distinct_program_perturbation_pairs additionally counts distinct (program text, perturbation vector) pairs."
+        "one evaluation = one simulated process history: 1..4 programs (seeded generator over all seven dialect settings, plus shipped sources under resources/tests) are compiled by a reference actor in canonical state, then by 1..8 perturbed actor threads whose operations (compile, failing compile at nine stages, name-counter jump, ambient integer-mode guard, re-entrant compile from read_new_file, reused allocator) are interleaved by the seeded scheduler at operation boundaries and at allocation-count preemption points, each thread with its own simulated hash entropy; every perturbed compile is compared with the reference (Ok/Err class, bytes, symbol entries with generated-name digits erased). Non-trivial run = at least one compared compile finished Ok for a program whose compile generates at least one fresh name (a modern-dialect program with a function, binding or lambda — the compiler renames every bound name —, a `_$_` entry in its symbol table, or movement of the global name counter) (every perturbed compile differs from the reference at least in thread and hash entropy). Distinct = hash of (complete workload, event log) among non-trivial runs; coverage.distinct_program_perturbation_pairs additionally counts distinct (program text, perturbation vector) pairs."
     }
     fn assumptions() -> Vec<String> {
         vec![
